@@ -7,7 +7,7 @@ CONSTANTS
   Starts = {0, 1, 2, 3}
   Timeouts = {0, 3, 4, 6}
   Thrs = {0, 1, 3}
-  MinHs = {0, 7, 10}
+  MinHs = {0, 9, 10, 12}
   Alwayss = {0, 5, 11}
   Implicit = {1}
   MaxBlocks = 18
